@@ -72,6 +72,11 @@ def keymap(o):
 
 
 TDICT_SPEC = pg.typing.Dict([(pg.typing.StrKey(), pg.typing.Any())])
+# "sd3" / "sd2" / "sd1": three nested schema dicts with fixed keys and defaults (what an object's attribute container is)
+SD1_SPEC = pg.typing.Dict([('a', pg.typing.Any(default=None)), ('b', pg.typing.Any(default=None))])
+SD2_SPEC = pg.typing.Dict([('a', SD1_SPEC), ('b', pg.typing.Any(default=None))])
+SD3_SPEC = pg.typing.Dict([('a', SD2_SPEC), ('b', pg.typing.Any(default=None))])
+SD_SPECS = {'sd3': SD3_SPEC, 'sd2': SD2_SPEC, 'sd1': SD1_SPEC}
 # "tlist": symbolic members only, never empty: a leaf or a plain container is rejected (TypeError), so is emptying it (ValueError)
 TLIST_SPEC = pg.typing.List(pg.typing.Object(pg.Symbolic), min_size=1)
 
@@ -115,6 +120,10 @@ def new_root(kind: str):
     o = A()
   elif kind == 'objb':
     o = B.partial()
+  elif kind == 'objc':
+    o = C()
+  elif kind == 'sd3':
+    o = pg.Dict(value_spec=SD3_SPEC, onchange_callback=_make_cb(holder))
   else:
     raise ValueError(kind)
   holder[0] = o
@@ -147,7 +156,9 @@ class Replayer:
     # which memo patterns exist when the next write has to invalidate them:
     #   'all'   every live node after every call;  'roots'  only the roots after every call;
     #   'model' only the node named by a ReadFacts step of the behaviour
-    self.facts_policy = facts_policy
+    # optionally followed by ':nd' / ':missing' / ':pure' to read only that one fact (a fact computed without asking the
+    # members leaves the members' memos empty)
+    self.facts_policy, _, self.facts_which = facts_policy.partition(':')
     self.obj: Dict[int, Any] = {}
     self.scopes: List[Any] = []     # entered context managers (stack, per family)
     self.sstack: List[Any] = []
@@ -562,7 +573,11 @@ class Replayer:
         if ek != gk or not self.match_value(ev, gv):
           raise Divergence('content', f'node {n}: spec {exp} impl {got!r}')
       want_cls = {'dict': pg.Dict, 'tdict': pg.Dict, 'list': pg.List, 'tlist': pg.List, 'obj': A, 'objb': B, 'objc': C,
-                  'objd': D}[kinds[n - 1]]
+                  'objd': D, 'sd3': pg.Dict, 'sd2': pg.Dict, 'sd1': pg.Dict}[kinds[n - 1]]
+      if kinds[n - 1] in SD_SPECS:
+        if type(o) is not pg.Dict or o.value_spec is None or sorted(str(k) for k in o.value_spec.schema.keys()) != ['a', 'b']:
+          raise Divergence('content', f'node {n}: expected a schema dict ({kinds[n - 1]}), found {type(o).__name__} with spec {o.value_spec!r:.80}')
+        continue
       if kinds[n - 1] in ('dict', 'tdict', 'list', 'tlist') and (o.value_spec is not None) != (kinds[n - 1] in ('tdict', 'tlist')):
         raise Divergence('content', f'node {n}: value spec binding {o.value_spec!r} but the model says {kinds[n - 1]}')
       if type(o) is not want_cls:
@@ -636,7 +651,7 @@ class Replayer:
       else:
         todo = [st['act'][1]] if st['act'][0] == 'ReadFacts' else []
       for n in todo:
-        self.compare_facts(st, n)
+        self.compare_facts(st, n, self.facts_which or 'full')
 
   def path_codes_to_str(self, recv_n, codes):
     keys = []
@@ -701,33 +716,43 @@ class Replayer:
       loc = []
       hit_ph = False
       for k in kp.keys:
-        cur = cur.sym_getattr(k)
+        try:
+          cur = cur.sym_getattr(k)
+        except Exception as e:  # pylint: disable=broad-except
+          raise Divergence('facts', f'sym_nondefault() reports the location {key!r}, which does not exist: {e!r:.120}')
         loc.append(k)
         if isinstance(cur, (pg.hyper.OneOf, pg.Ref)):
           hit_ph = True
           break
       if hit_ph or not isinstance(cur, pg.Symbolic):
         out.add(str(pg.KeyPath(list(prefix) + loc)))
+        if not hit_ph and len(loc) == len(kp.keys):
+          # the reported value must be the value stored there NOW
+          rep_v = o.sym_nondefault(flatten=True)[key]
+          if not (rep_v is cur or (type(rep_v) is type(cur) and rep_v == cur)):
+            raise Divergence('facts', f'sym_nondefault() reports {rep_v!r} at {key!r} but {cur!r} is stored there')
       else:
         out |= self.nondefault_locations(cur, tuple(prefix) + tuple(loc))
     return out
 
-  def compare_facts(self, st, n):
+  def compare_facts(self, st, n, which='full'):
     f = st['facts'][n - 1]
     if not f[0]:
       return
     o = self.obj[n]
-    want_missing = {self.path_codes_to_str(n, p) for p in f[1]}
-    got_missing = {str(k) for k in o.sym_missing(flatten=True)}
-    if want_missing != got_missing:
-      raise Divergence('facts', f'node {n}: sym_missing() {sorted(got_missing)} expected {sorted(want_missing)}')
-    if bool(o.is_partial) != bool(want_missing):
-      raise Divergence('facts', f'node {n}: is_partial {o.is_partial} expected {bool(want_missing)}')
-    want_nd = {self.path_codes_to_str(n, p) for p in f[2]}
-    got_nd = self.nondefault_locations(o)
-    if want_nd != got_nd:
-      raise Divergence('facts', f'node {n}: sym_nondefault() locations {sorted(got_nd)} expected {sorted(want_nd)}')
-    if bool(o.sym_puresymbolic) != f[3] or bool(pg.is_deterministic(o)) == f[3]:
+    if which in ('full', 'missing'):
+      want_missing = {self.path_codes_to_str(n, p) for p in f[1]}
+      got_missing = {str(k) for k in o.sym_missing(flatten=True)}
+      if want_missing != got_missing:
+        raise Divergence('facts', f'node {n}: sym_missing() {sorted(got_missing)} expected {sorted(want_missing)}')
+      if bool(o.is_partial) != bool(want_missing):
+        raise Divergence('facts', f'node {n}: is_partial {o.is_partial} expected {bool(want_missing)}')
+    if which in ('full', 'nd'):
+      want_nd = {self.path_codes_to_str(n, p) for p in f[2]}
+      got_nd = self.nondefault_locations(o)
+      if want_nd != got_nd:
+        raise Divergence('facts', f'node {n}: sym_nondefault() locations {sorted(got_nd)} expected {sorted(want_nd)}')
+    if which in ('full', 'pure') and (bool(o.sym_puresymbolic) != f[3] or bool(pg.is_deterministic(o)) == f[3]):
       raise Divergence('facts', f'node {n}: sym_puresymbolic {o.sym_puresymbolic} / is_deterministic '
                                 f'{pg.is_deterministic(o)} expected placeholder-present = {f[3]}')
 
@@ -768,9 +793,9 @@ class Replayer:
         if st['subs'][n - 1]:
           kw['onchange_callback'] = _make_cb(None)
         o = pg.List(items, accessor_writable=st['accw'][n - 1], **kw)
-      elif k in ('dict', 'tdict'):
+      elif k in ('dict', 'tdict', 'sd3', 'sd2', 'sd1'):
         items = {DKEYS[kk]: (build(v) if 1 <= v <= n_nodes else leaf(v)) for kk, v in st['ditems'][n - 1]}
-        kw = {'value_spec': TDICT_SPEC} if k == 'tdict' else {}
+        kw = {'value_spec': TDICT_SPEC} if k == 'tdict' else {'value_spec': SD_SPECS[k]} if k in SD_SPECS else {}
         if st['subs'][n - 1]:
           kw['onchange_callback'] = _make_cb(None)
         o = pg.Dict(items, accessor_writable=st['accw'][n - 1], **kw)
